@@ -7,6 +7,8 @@ names="$@"; [ -z "$names" ] && names=$(cd seeded && ls -d */ | tr -d /)
 rc_all=0
 for n in $names; do
   id=${n%%-*}
+  # a change that breaks a neighbouring property names the check that catches it
+  other=$(jq -r '.caught_by_check // empty' seeded/$n/meta.json 2>/dev/null); [ -n "$other" ] && id=$other
   p=seeded/$n/patch.diff
   if ! git -C /repo diff --quiet; then echo "$n: /repo working tree not clean, aborting"; exit 2; fi
   if ! git -C /repo apply --check $PWD/$p 2>/dev/null; then echo "$n: DOES-NOT-APPLY"; rc_all=1; continue; fi
